@@ -12,7 +12,7 @@ structure Same (s s' : St) : Prop where
   seqs : s'.seqs = s.seqs
   nq : s'.nq = s.nq
   t : s'.t = s.t
-  p : s'.p = s.p
+  p : pp s' = pp s
 
 theorem Same.refl (s : St) : Same s s := ⟨rfl, rfl, rfl, rfl, rfl⟩
 theorem Same.trans {s1 s2 s3 : St} (h1 : Same s1 s2) (h2 : Same s2 s3) : Same s1 s3 :=
@@ -252,7 +252,7 @@ theorem seqAfterUpdate_roles {s s' : St} {m : UpdMsg} {b : Bool} (h : Roles s)
   · rename_i prop hg
     dsimp only at e
     have hpa : prop.addr = m.sender := getSeq_addr hg
-    have f1 : Frame s (setSeq s { prop with dishonor := prop.dishonor - min s.p.dishonorSU prop.dishonor }) :=
+    have f1 : Frame s (setSeq s { prop with dishonor := prop.dishonor - min s.sqp.dishonorSU prop.dishonor }) :=
       Frame.of_setSeq (q0 := prop) h.core.uniq hg (by rfl) (by rfl) (by rfl) (by rfl) (by rfl)
     have h1 := h.frame f1
     split at e
@@ -478,15 +478,15 @@ theorem unbond_roles {s s' : St} {a : Addr} (h : Roles s) (e : unbond s a = .ok 
                   rw [hn] at haw hnip
                   simp at haw hnip
                   omega
-              show Roles { setSeq s { q with optedIn := false, notice := some (s.t + s.p.noticePeriod) } with
-                            nq := insertSorted ltPair (s.t + s.p.noticePeriod, a) s.nq }
-              have c1 : RolesCore (setSeq s { q with optedIn := false, notice := some (s.t + s.p.noticePeriod) }) := by
+              show Roles { setSeq s { q with optedIn := false, notice := some (s.t + s.sqp.noticePeriod) } with
+                            nq := insertSorted ltPair (s.t + s.sqp.noticePeriod, a) s.nq }
+              have c1 : RolesCore (setSeq s { q with optedIn := false, notice := some (s.t + s.sqp.noticePeriod) }) := by
                 apply h.core.of_setSeq hg (by rfl) (by rfl)
                 · intro hb; exact Or.inl hb
                 · right
                   intro x hx hsx
                   obtain ⟨q2, hq2, _, hr2⟩ := h.core.succ x hx _ hsx
-                  rw [show ({ q with optedIn := false, notice := some (s.t + s.p.noticePeriod) } : Seq).addr = a from hqa, hg] at hq2
+                  rw [show ({ q with optedIn := false, notice := some (s.t + s.sqp.noticePeriod) } : Seq).addr = a from hqa, hg] at hq2
                   injection hq2 with hq2; subst hq2
                   have hxr : x = r := by
                     have := getRa_of_mem h.core.uniq.ids hx
@@ -496,17 +496,17 @@ theorem unbond_roles {s s' : St} {a : Addr} (h : Roles s) (e : unbond s a = .ok 
                 · intro _; rfl
                 · intro t hta
                   obtain ⟨q3, _, hq3, hn3, _, _⟩ := h.core.nq t _ hta
-                  rw [show ({ q with optedIn := false, notice := some (s.t + s.p.noticePeriod) } : Seq).addr = a from hqa, hg] at hq3
+                  rw [show ({ q with optedIn := false, notice := some (s.t + s.sqp.noticePeriod) } : Seq).addr = a from hqa, hg] at hq3
                   injection hq3 with hq3; subst hq3
                   rw [hnn] at hn3; cases hn3
               refine ⟨?_, h.sp.of_ras rfl⟩
               have := h.core.np
-              apply c1.of_nqInsert (q := { q with optedIn := false, notice := some (s.t + s.p.noticePeriod) }) (r := r)
+              apply c1.of_nqInsert (q := { q with optedIn := false, notice := some (s.t + s.sqp.noticePeriod) }) (r := r)
               · rw [← hqa]; exact getSeq_setSeq_same' (q0 := q) hg (by rfl)
               · rfl
               · exact hgr
               · exact hpr
-              · show s.t < s.t + s.p.noticePeriod; omega
+              · show s.t < s.t + s.sqp.noticePeriod; omega
         · split at e
           · cases e
           · rename_i s1 q1 hs
